@@ -320,6 +320,15 @@ impl Sim {
             obs.outcome(role, &format!("fork:{op}"), &class);
         }
         let forked = self.forked;
+        obs.probe(&format!("tx:{op}:{class}"));
+        if let Ok(pat) = std::env::var("GLV_DBG") {
+            if format!("{op}:{class}") == pat {
+                eprintln!("DBG step={} {role} {op} -> {class} panic={:?} rule={:?} failed_ix={:?}", obs.cur_step, out.panic, out.runtime_rule, out.failed_ix);
+                if std::env::var("GLV_DBG_VIOL").is_ok() {
+                    obs.violation(P45, "dbg", pat.clone(), String::new());
+                }
+            }
+        }
         obs.event(|| format!("{}{role} {op} -> {class}", if forked { "  [fork] " } else { "" }));
         out
     }
